@@ -362,7 +362,11 @@ func conflictAtoms() []ConflictAtom {
 	}, true})
 	for _, v := range [][3]string{{"type", "a: Int", "a: String"}, {"nullability", "a: Int", "a: Int!"}, {"list", "a: Int", "a: [Int]"},
 		{"arg-name", "a(x: Int): Int", "a(y: Int): Int"}, {"arg-type", "a(x: Int): Int", "a(x: String): Int"}, {"arg-default", "a(x: Int = 1): Int", "a(x: Int = 2): Int"},
-		{"arg-added", "a: Int", "a(x: Int): Int"}} {
+		{"arg-added", "a: Int", "a(x: Int): Int"},
+		// every wrapper level counts: the nullability of a list level, of the element, the depth
+		{"list-level-nullability", "a: [String!]!", "a: [String!]"}, {"list-element-nullability", "a: [String!]", "a: [String]"},
+		{"nested-list-level-nullability", "a: [[Int!]!]!", "a: [[Int!]]!"}, {"list-depth", "a: [[Int]]", "a: [Int]"},
+		{"arg-list-level-nullability", "a(x: [Int!]!): Int", "a(x: [Int!]): Int"}, {"arg-nullability", "a(x: Int!): Int", "a(x: Int): Int"}} {
 		v := v
 		out = append(out, ConflictAtom{"shared-field-different-" + v[0], func(ss []*SvcSpec) {
 			ss[0].addType("P", "", v[1])
